@@ -49,8 +49,10 @@ Protected(p) == UnderPK(p) \/ UnderSvc(p) \/ Root(p)
 
 UsesFrom(k) == k \in {"move", "copy"}
 
-\* locations an operation writes to (or removes from)
+\* locations an operation writes to (or removes from); an operation whose members are not spelled as RFC 6902
+\* spells them (see Respelled) is no operation: it cannot be applied, the list fails and nothing is written
 Written(o) ==
+    IF o.spell # "plain" THEN {} ELSE
     CASE o.kind \in {"add", "remove", "replace"} -> {o.path}
       [] o.kind = "move" -> {o.from, o.path}
       [] o.kind = "copy" -> {o.path}
@@ -60,11 +62,19 @@ MayAlterPK(o)  == \E p \in Written(o) : UnderPK(p) \/ Root(p)
 MayAlterSvc(o) == \E p \in Written(o) : UnderSvc(p) \/ Root(p)
 
 \* the intended validator
-OpValidated(o) == ~Protected(o.path) /\ ((CheckFrom /\ UsesFrom(o.kind)) => ~Protected(o.from))
+OpValidated(o) == ~Protected(o.path) /\ ((CheckFrom /\ UsesFrom(o.kind) /\ o.spell # "From") => ~Protected(o.from))
 
-Op(k, p, f) == [kind |-> k, path |-> p, from |-> f]
+Op(k, p, f) == [kind |-> k, path |-> p, from |-> f, spell |-> "plain"]
+\* member names / operation names in another letter case: "From" for from, "Op" for op, "Move" for move.  JSON member
+\* names and RFC 6902 operation names are case sensitive: such an operation has no from / no op / an unknown op
+Respelled ==
+    {[kind |-> k, path |-> p, from |-> f, spell |-> sp] : k \in {"move", "copy"}, p \in {"/other", "/publicKey/-", "/service/0/serviceEndpoint"},
+                                                       f \in {"/publicKey/0", "/service/0", "/other/a"}, sp \in {"From", "Op", "Kind"}}
+    \cup {[kind |-> k, path |-> p, from |-> p, spell |-> sp] : k \in {"add", "remove", "replace"}, p \in {"/publicKey/0", "/service", "/other/a"},
+                                                            sp \in {"Op", "Kind"}}
 AllOps == {Op(k, p, p) : k \in Kinds \ {"move", "copy"}, p \in Ptrs}
             \cup {Op(k, p, f) : k \in {"move", "copy"}, p \in Ptrs, f \in Ptrs}
+            \cup Respelled
 
 Benign == Op("add", "/other/a", "/other/a")
 
